@@ -252,7 +252,17 @@ func (c C14) Run(t *tape.Tape, opt core.RunOpt) (res core.Result) {
 					frags = append(frags, f)
 				}
 			}
-			if poisoned {
+			if poisoned && t.Bool(1, 5) {
+				// nothing but scalars implemented in Go in one call, the last of
+				// them with a name that is refused
+				frags = frags[:0]
+				for k := 0; k < 1+t.Draw(2); k++ {
+					sp := &workload.TypeSpec{Kind: "goscalar", Name: fmt.Sprintf("Zip%d", t.Draw(1000))}
+					frags = append(frags, workload.Fragment{Kind: "new_goscalar", Text: sp.SDL(), Spec: sp})
+				}
+				bad := &workload.TypeSpec{Kind: "goscalar", Name: fmt.Sprintf("Zip-Code%d", t.Draw(10))}
+				frags = append(frags, workload.Fragment{Kind: "poison:validation:go_scalar_with_a_refused_name", Text: bad.SDL(), Spec: bad})
+			} else if poisoned {
 				if sc := gen.PickLoaded("scalar"); sc != nil && t.Bool(1, 3) {
 					// a Go implementation of a scalar the schema already declares,
 					// in a call that fails (for this or for the next reason)
